@@ -3,7 +3,9 @@
 (* TLC: the print/parse laws of C06 on the transcribed CIMDateTime          *)
 (* algorithms, for every abstract value over the boundary classes of every  *)
 (* field, every UTC offset class and every legal precision, and closure of  *)
-(* the law under single-symbol mutations of valid strings.                  *)
+(* the law under single-symbol mutations of valid strings; a value given as *)
+(* a datetime object prints as its DSP0004 string under every tzinfo        *)
+(* carrier class (CtorHolds).                                               *)
 (* The value space is explored in two stages (group, member) so that the    *)
 (* work spreads over the workers.  With EMIT_DIR set, the values / strings  *)
 (* the harness must drive through the real code are written as JSON.        *)
@@ -29,7 +31,7 @@ UsecsS == {0, 1, 123456, 999999}
 UsecsL == {0, 1, 123456, 999990, 999999}
 IvDaysS == {0, 1, 99999998, 99999999}
 IvDaysL == {0, 1, 9, 10, 12345678, 99999990, 99999998, 99999999}
-OffsetsAll == {-999, -721, -720, -1, 0, 1, 720, 721, 999}
+OffsetsAll == {-999, -721, -720, -1, 0, 1, 720, 721, 999} \cup WrapOffsets
 
 VARIABLES stage, grp, item
 vars == <<stage, grp, item>>
@@ -85,14 +87,25 @@ Members(g) ==
     [] g[1] = "mut" -> {[x |-> MutSeq[g[2]], m |-> m] :
                           m \in Mutations(Str(MutSeq[g[2]]))}
 
+(* the tzinfo carriers under which a value is given as a datetime object   *)
+CarriersOf(it) ==
+  IF it.m = << >> /\ it.x.kind = "ts" /\ it.x.prec = -1
+  THEN {c \in TzCarriers : CarrierCan(c, it.x.off)} ELSE {}
+
 EmitOn == "EMIT_DIR" \in DOMAIN IOEnv
 Emit(g) ==
   IF ~EmitOn THEN TRUE
   ELSE IF g[1] = "ts" THEN TRUE
-  ELSE JsonSerialize(
-         IOEnv.EMIT_DIR \o "/" \o g[1] \o ToString(g[2]) \o ".json",
-         SetToSeq({[x |-> it.x, s |-> Str(it.x), m |-> it.m] :
-                     it \in Members(g)}))
+  ELSE /\ JsonSerialize(
+            IOEnv.EMIT_DIR \o "/" \o g[1] \o ToString(g[2]) \o ".json",
+            SetToSeq({[x |-> it.x, s |-> Str(it.x), m |-> it.m,
+                       cs |-> SetToSeq(CarriersOf(it))] :
+                        it \in Members(g)}))
+       /\ (g[1] # "drive" \/
+           JsonSerialize(
+             IOEnv.EMIT_DIR \o "/carriers.tab",
+             [c \in TzCarriers |->
+                SetToSeq({o \in -999..999 : CarrierCan(c, o)})]))
 
 Init == stage = 0 /\ grp \in Groups /\ item = NoItem
 Next == /\ stage = 0
@@ -105,5 +118,7 @@ Spec == Init /\ [][Next]_vars
 IsValue == stage = 1 /\ item.m = << >>
 RoundTrip == IsValue => (Expressible(item.x) /\ RoundTripLaw(item.x))
 CopySame == IsValue => ImplCopy(item.x) = item.x
+CtorHolds == (IsValue /\ item.x.kind = "ts" /\ item.x.prec = -1) =>
+               \A c \in CarriersOf(item) : CtorLaw(c, item.x)
 ParseClosed == (stage = 1 /\ item.m # << >>) => ParseClosedLaw(item.m)
 =============================================================================
